@@ -10,5 +10,10 @@ Pats2 == {<<"*">>, <<"a", "*">>}
 KeysT == {<<"a">>, <<"a", "/">>}
 PatsT == {<<"*">>, <<"a", "/">>, <<"a", "*">>, <<"*", "/">>, <<"a">>}
 Keys1 == {<<"a">>}
+\* gobwas-only syntax (in-memory backend): alternatives alone, next to literals and wildcards, character classes
+PatsG == {<<"{a,ab}">>, <<"{a,d/b}">>, <<"d", "/", "{b,c}">>, <<"{a,x}", "*">>, <<"a", "{b,c}">>, <<"{ab,d/b}">>,
+          <<"[!d]", "*">>, <<"[!a-c]", "*">>, <<"[ab]">>, <<"a", "[a-c]">>}
+\* classes both matchers spell the same way
+PatsC == {<<"[ab]">>, <<"a", "[a-c]">>, <<"[a-c]", "*">>, <<"*", "[ab]">>}
 Bound == DepthBound(Depth)
 =============================================================================
